@@ -77,6 +77,7 @@ prop('C13',
            {'name': 'k_eu_semiring_small_int'}, {'name': 'k_complex_small_int'},
            {'name': 'k_complex_identities_all_finite'}, {'name': 'k_real_identities_all_finite'}, {'name': 'k_eu_identities_all_finite'},
            {'name': 'k_complex_add_comm_all_finite', 'thorough_only': True},
+           {'name': 'k_real_sub_inverts_add_exact_ints', 'thorough_only': True}, {'name': 'k_eu_sub_inverts_add_exact_ints', 'thorough_only': True}, {'name': 'k_complex_sub_inverts_add_exact_ints', 'thorough_only': True},
            {'name': 'k_eu_mulassoc_small_int', 'thorough_only': True}, {'name': 'k_complex_mulassoc_small_int', 'thorough_only': True}],
      assumptions=[A_VERUS, A_EXTRACT, A_KANI],
      replay={'kani': 'lattice', 'poly': 'poly', '*': 'ff'},
